@@ -10,6 +10,7 @@ ids=${@:-$(ls -d seeded/*/ | xargs -n1 basename)}
 bad=0
 for id in $ids; do
   d=seeded/$id
+  if python3 -c "import json,sys; sys.exit(0 if json.load(open('$d/meta.json')).get('obsolete') else 1)"; then echo "$id: obsolete (skipped)"; continue; fi
   [ -f "$d/replay.json" ] || { echo "$id: no replay file"; continue; }
   c=$(cat "$d/replay.check")
   ./check "$c" --replay "$d/replay.json" > /tmp/sr_clean.txt 2>&1; rc0=$?
